@@ -229,7 +229,93 @@ fn one_call(
     )
 }
 
+fn tok<'a>(args: &'a [String], k: &str) -> Option<&'a str> {
+    args.iter().find_map(|t| t.strip_prefix(k).and_then(|r| r.strip_prefix('=')))
+}
+
+fn parse_ent(s: &str) -> Ent {
+    if let Some(h) = s.strip_prefix("arb:") {
+        Ent::Arb(if h == "-" { vec![] } else { crate::unhex(h) })
+    } else {
+        Ent::Rand(s.trim_start_matches("rand:").parse().unwrap_or(0))
+    }
+}
+
+/// re-run one recorded `mut` line (a replay)
+fn replay_mut(args: &[String]) {
+    let kind = tok(args, "kind").unwrap_or("?");
+    let mi = MUT_NAMES.iter().position(|n| *n == kind).expect("mutator kind");
+    let unsafe_m = tok(args, "unsafe") == Some("1");
+    let method = tok(args, "method").unwrap_or("?");
+    let value = tok(args, "value").unwrap_or("-");
+    let rate_bits = u64::from_str_radix(tok(args, "rate").unwrap_or("0"), 16).unwrap();
+    let rate = f64::from_bits(rate_bits);
+    let ent = parse_ent(tok(args, "ent").unwrap_or("arb:-"));
+    let m: Box<dyn Mutator> = MUTS[mi].create(unsafe_m);
+    let unh = |v: &str| if v == "-" { vec![] } else { crate::unhex(v) };
+    let (result, left) = match method {
+        "int" => {
+            let (r, l) = ent.with(|s| m.mutate_int(value.parse().unwrap(), s, rate));
+            (opt(r, |x| format!("{}", x)), l)
+        }
+        "long" => {
+            let (r, l) = ent.with(|s| m.mutate_long(value.parse().unwrap(), s, rate));
+            (opt(r, |x| format!("{}", x)), l)
+        }
+        "float" => {
+            let v = f64::from_bits(u64::from_str_radix(value, 16).unwrap());
+            let (r, l) = ent.with(|s| m.mutate_float(v, s, rate));
+            (opt(r, |x| format!("{:016x}", x.to_bits())), l)
+        }
+        "string" => {
+            let v = String::from_utf8(unh(value)).unwrap();
+            let (r, l) = ent.with(|s| m.mutate_string(v.clone(), s, rate));
+            (opt(r, |x| hexs(x)), l)
+        }
+        "bytes" => {
+            let v = unh(value);
+            let (r, l) = ent.with(|s| m.mutate_bytes(v.clone(), s, rate));
+            (opt(r, |x| hexb(x)), l)
+        }
+        "memo" => {
+            let (r, l) = ent.with(|s| m.mutate_memo_index(value.parse().unwrap(), s, rate));
+            (opt(r, |x| format!("{}", x)), l)
+        }
+        _ => {
+            let (pre, delta) = value.split_once('+').unwrap_or(("-", "-"));
+            let prefix = unh(pre);
+            let delta = unh(delta);
+            let mut out = prefix.clone();
+            out.extend_from_slice(&delta);
+            let snap = EmissionSnapshot {
+                stack_depth: 0,
+                output_len: prefix.len(),
+                memo_size: 0,
+                stack_delta: Vec::new(),
+                output_delta: delta.clone(),
+                memo_delta: Vec::new(),
+            };
+            let (r, l) = ent.with(|s| {
+                let changed = m.post_process(&snap, &mut out, s, rate);
+                (changed, out.clone())
+            });
+            (format!("{}:{}", if r.0 { "changed" } else { "same" }, hexb(&r.1)), l)
+        }
+    };
+    println!(
+        "mut kind={} unsafe={} method={} value={} rate={:016x} ent={} result={} left={}",
+        kind, unsafe_m as u8, method, value, rate_bits, ent.tag(), result, left
+    );
+}
+
 pub fn cmd_mut(args: &[String]) {
+    if args.iter().any(|a| a == "--replay") {
+        let r = std::panic::catch_unwind(|| replay_mut(args));
+        if r.is_err() {
+            println!("mut {} result=panic left=0", args.iter().filter(|a| a.contains('=')).cloned().collect::<Vec<_>>().join(" "));
+        }
+        return;
+    }
     let n: u64 = crate::arg_val(args, "--cases", "2000").parse().unwrap();
     let seed: u64 = crate::arg_val(args, "--seed", "1").parse().unwrap();
     let mut rng = Rng(seed ^ 0x6d7574);
@@ -269,7 +355,18 @@ pub fn cmd_mut(args: &[String]) {
             _ => rates[2 + rng.below(3) as usize],
         };
         let ent = sample_ent(&mut rng);
-        println!("{}", one_call(mi, unsafe_m, method, rate, &ent, &mut rng, None));
+        let line = {
+            let r = std::panic::catch_unwind(std::panic::AssertUnwindSafe(|| {
+                one_call(mi, unsafe_m, method, rate, &ent, &mut rng, None)
+            }));
+            r.unwrap_or_else(|_| {
+                format!(
+                    "mut kind={} unsafe={} method={} value=? rate={:016x} ent={} result=panic left=0",
+                    MUT_NAMES[mi], unsafe_m as u8, method, rate, ent.tag()
+                )
+            })
+        };
+        println!("{}", line);
     }
 }
 
@@ -313,6 +410,18 @@ fn src_call(method: &str, a: usize, b: usize, ent: &Ent) -> String {
 }
 
 pub fn cmd_src(args: &[String]) {
+    if args.iter().any(|a| a == "--replay") {
+        let m = tok(args, "method").unwrap_or("?").to_string();
+        let a: usize = tok(args, "a").unwrap_or("0").parse().unwrap_or(0);
+        let b: usize = tok(args, "b").unwrap_or("0").parse().unwrap_or(0);
+        let ent = parse_ent(tok(args, "ent").unwrap_or("arb:-"));
+        let r = std::panic::catch_unwind(|| src_call(&m, a, b, &ent));
+        match r {
+            Ok(l) => println!("{}", l),
+            Err(_) => println!("src method={} a={} b={} ent={} result=panic left=0", m, a, b, ent.tag()),
+        }
+        return;
+    }
     let n: u64 = crate::arg_val(args, "--cases", "2000").parse().unwrap();
     let seed: u64 = crate::arg_val(args, "--seed", "1").parse().unwrap();
     let exhaustive2 = args.iter().any(|a| a == "--exhaustive2");
